@@ -208,6 +208,33 @@ func retryAlphabet(inSession bool, w *World) []histAnswer {
 		rawGarbage("zero-length-datagram", func(t *env.Transport, rx *ref.Rx) []byte { return []byte{} }),
 		// a datagram larger than the 512-byte receive buffer
 		rawGarbage("garbage-600-bytes", func(t *env.Transport, rx *ref.Rx) []byte { return pattern(600, 0xA5, 0) }),
+		// the valid reply to a caller-defined command, its body sized so that the
+		// datagram is exactly as large as the receive buffer (the honest reply for
+		// other commands)
+		{Answer: env.Raw("ok-datagram-of-exactly-512-bytes", func(t *env.Transport, rx *ref.Rx) []byte {
+			if rx == nil {
+				return nil
+			}
+			if rx.Msg == nil || rx.Msg.NetFn != 0x30 {
+				return t.BMC.Honest(rx)
+			}
+			seq := uint32(0)
+			if rx.Sess != nil {
+				seq = rx.Sess.OutSeq
+			}
+			for n := 380; n < 500; n++ {
+				if rx.Sess != nil {
+					rx.Sess.OutSeq = seq
+				}
+				if d := t.BMC.Respond(rx, rx.CC, pattern(n, 0x5C, 1)); len(d) == 512 {
+					return d
+				}
+			}
+			if rx.Sess != nil {
+				rx.Sess.OutSeq = seq
+			}
+			return t.BMC.Honest(rx)
+		}), Class: clsFinal, Own: true},
 	}
 	if inSession {
 		a = append(a, rawGarbage("bad-signature", func(t *env.Transport, rx *ref.Rx) []byte {
@@ -216,6 +243,11 @@ func retryAlphabet(inSession bool, w *World) []histAnswer {
 				d[len(d)-1] ^= 0x01
 			}
 			return d
+		}), rawGarbage("unsigned-reply-with-a-far-ahead-sequence-number", func(t *env.Transport, rx *ref.Rx) []byte {
+			if rx == nil || rx.Sess == nil || rx.Msg == nil {
+				return nil
+			}
+			return ref.BuildPacket(ref.PTIPMI, false, rx.Sess.HS.SIDM, 0xFFFFFFF0, ref.ResponseTo(rx.Msg, 0, rx.Body), nil)
 		}), rawGarbage("signature-one-byte-short", func(t *env.Transport, rx *ref.Rx) []byte {
 			d := t.BMC.Honest(rx)
 			if len(d) > 0 {
@@ -250,6 +282,10 @@ type histCfg struct {
 	// once and closed on the same connection (same suite and credentials); the
 	// BMC hands out distinct session IDs
 	Prior bool `json:"prior,omitempty"`
+	// BMCSID, if non-zero, is the managed-system session ID the BMC hands out;
+	// BMCOutSeq the number its own (outbound) session sequence starts after
+	BMCSID    uint32 `json:"bmc_sid,omitempty"`
+	BMCOutSeq uint32 `json:"bmc_out_seq,omitempty"`
 	// UDP: run over the library's real transport and a loopback socket
 	// (newWorldUDP) instead of the in-memory transport.
 	UDP bool `json:"udp,omitempty"`
@@ -286,7 +322,20 @@ type histObs struct {
 // histMenu builds the menu function for an alphabet name; checks register
 // additional alphabets here.
 var histAlphabets = map[string]func(cfg histCfg, w *World) []histAnswer{
-	"retry": func(cfg histCfg, w *World) []histAnswer { return retryAlphabet(cfg.InSession, w) },
+	"retry": func(cfg histCfg, w *World) []histAnswer {
+		a := retryAlphabet(cfg.InSession, w)
+		if cfg.Suite.Integ == 0 {
+			// without a negotiated integrity algorithm an unsigned reply is a valid one
+			var out []histAnswer
+			for _, x := range a {
+				if x.Answer.Name != "unsigned-reply-with-a-far-ahead-sequence-number" {
+					out = append(out, x)
+				}
+			}
+			return out
+		}
+		return a
+	},
 	// every completion code as the final answer
 	"codes": func(cfg histCfg, w *World) []histAnswer {
 		a := []histAnswer{{Answer: env.Honest(), Class: clsFinal, Own: true}}
@@ -368,6 +417,9 @@ func handshakeAlphabet(w *World) []histAnswer {
 
 func runHistory(cfg histCfg, ch *env.Chooser) *histObs {
 	bcfg := histConfig(cfg.Suite)
+	if cfg.BMCSID != 0 {
+		bcfg.SIDC = cfg.BMCSID
+	}
 	sid := bcfg.SIDC
 	if cfg.Prior {
 		bcfg.DistinctSIDs = true
@@ -456,6 +508,9 @@ func runHistory(cfg histCfg, ch *env.Chooser) *histObs {
 		conn = sess
 		o.SessRemoteID, o.SessLocalID = sess.RemoteID, sess.LocalID
 		o.BS = w.BMC.Sessions[sid]
+		if o.BS != nil && cfg.BMCOutSeq != 0 {
+			o.BS.OutSeq = cfg.BMCOutSeq
+		}
 	}
 	o.HandshakeExchanges = len(w.T.Log)
 	alphaFn := histAlphabets[cfg.Alphabet]
